@@ -17,7 +17,7 @@ DEFAULT = dict(
     p_group_result=0.25, p_flatten=0.4, p_as=0.12, p_named=0.25,
     p_opt=0.25, p_group_param=0.25, p_soft=0.35, p_obj=0.5, p_nest=0.25,
     p_dup=0.06, p_cycle=0.1, p_unknown_dep=0.08, p_foreign_dep=0.12,
-    n_types=8, early_scopes=0.3, p_multi_dec=0.25, p_group_dec=0.3, p_dec_self=0.85, p_one_obj=0.0, p_soft_pattern=0.0, p_dec_chain=0.0, p_dup_as=0.03, p_dup_dec_key=0.0, p_variadic=0.12, p_ns=0.2, p_wrap_ty=0.08, p_group_chain=0.02, p_unexp=0.1, p_late_scope_cycle=0.02, p_dec_extra=0.03, p_empty_invoke=0.04, p_no_result=0.025,
+    n_types=8, early_scopes=0.3, p_multi_dec=0.25, p_group_dec=0.3, p_dec_self=0.85, p_one_obj=0.0, p_soft_pattern=0.0, p_dec_chain=0.0, p_dup_as=0.03, p_dup_dec_key=0.0, p_variadic=0.12, p_ns=0.2, p_wrap_ty=0.08, p_group_chain=0.02, p_unexp=0.1, p_late_scope_cycle=0.02, p_dec_extra=0.03, p_empty_invoke=0.04, p_no_result=0.025, p_iface_ty=0.04,
 )
 
 PROFILES = {
@@ -37,7 +37,7 @@ PROFILES = {
     "rejections": dict(p_dup=0.3, p_cycle=0.3, w_bad=2.5, w_decorate=3, p_multi_dec=0.5, n_types=5, p_export=0.2),
     "faults": dict(p_fault=0.4, p_callback=0.5, w_invoke=9, w_decorate=3, n_types=6),
     "trees": dict(p_late_scope_cycle=0.08, p_dec_chain=0.35, w_scope=5, max_scopes=8, p_export=0.25, early_scopes=0.5, w_decorate=2, p_fault=0.03),
-    "keys": dict(p_named=0.6, p_as=0.35, p_group_result=0.4, p_dup=0.2, n_types=3, w_decorate=1, p_fault=0.02),
+    "keys": dict(p_iface_ty=0.15, p_named=0.6, p_as=0.35, p_group_result=0.4, p_dup=0.2, n_types=3, w_decorate=1, p_fault=0.02),
     "groups": dict(p_group_result=0.7, p_group_param=0.7, p_soft=0.15, p_flatten=0.5, p_as=0.3, n_types=4,
                    w_decorate=0.6, p_fault=0.05, p_export=0.2, p_group_chain=0.08, p_wrap_ty=0.25),
     "soft": dict(p_group_result=0.6, p_group_param=0.7, p_soft=0.6, n_types=4, w_decorate=0.3, p_fault=0.03, p_one_obj=0.7, p_soft_pattern=0.35),
@@ -94,6 +94,8 @@ class Gen:
 
     def rand_type(self):
         t = self.r.randrange(self.p["n_types"])
+        if self.chance(self.p["p_iface_ty"]):
+            return self.r.choice(IFACES)      # a key whose declared type is itself an interface
         if self.chance(self.p["p_wrap_ty"]):
             # structural type codes (GoTypes.tcode): 32+4k = *T<k>, 35+4k = NS<k> (a named slice type with
             # methods): keys distinct from T<k>, both implement I0..I3; with NS<k> a value group has
@@ -375,9 +377,9 @@ class Gen:
                     if vis:
                         k = self.r.choice(vis)
                 l = dict(k="single", ty=k[1], name=k[2], **{"as": []})
-                if k[1] < 16 and self.chance(self.p["p_as"]):
+                if (k[1] < 16 or k[1] in IFACES) and self.chance(self.p["p_as"]):
                     n_as = self.r.choice([1, 1, 2])
-                    l["as"] = self.r.sample(IFACES, n_as)
+                    l["as"] = self.r.sample([i for i in IFACES if i != k[1]], n_as)
             if k in keys and k[0] == "s" and not self.chance(self.p["p_dup"]):
                 continue
             keys.append(k)
